@@ -176,7 +176,16 @@ def coq_make(targets=None):
     return rc, out
 
 
-def run_lines(exe, cases, timeout=600, env=None, restart_on_crash=True):
+def _big_stack():
+    # the extracted model recurses structurally over long lists (non tail-recursive): give it the stack it needs
+    import resource
+    try: resource.setrlimit(resource.RLIMIT_STACK, (resource.RLIM_INFINITY, resource.RLIM_INFINITY))
+    except Exception:
+        try:
+            soft, hard = resource.getrlimit(resource.RLIMIT_STACK); resource.setrlimit(resource.RLIMIT_STACK, (hard, hard))
+        except Exception: pass
+
+def run_lines(exe, cases, timeout=600, env=None, restart_on_crash=True, big_stack=False):
     """feed case lines to a driver; returns one output line per case.  A crash of the driver is
     reported as 'CRASH <signal>' for the case it died on and the driver is restarted after it."""
     outs = []
@@ -185,7 +194,7 @@ def run_lines(exe, cases, timeout=600, env=None, restart_on_crash=True):
     while i < n:
         data = '\n'.join(cases[i:]) + '\n'
         p = subprocess.run([exe] if isinstance(exe, str) else exe, input=data, stdout=subprocess.PIPE,
-                           stderr=subprocess.PIPE, text=True, timeout=timeout, env=env)
+                           stderr=subprocess.PIPE, text=True, timeout=timeout, env=env, preexec_fn=_big_stack if big_stack else None)
         lines = p.stdout.split('\n')
         if lines and lines[-1] == '': lines.pop()
         got = lines[:n - i]
@@ -204,7 +213,7 @@ def run_lines(exe, cases, timeout=600, env=None, restart_on_crash=True):
 def run_model(cases, flavour='pure', timeout=900):
     ensure_model()
     exe = os.path.join(VERIF, 'ocaml', flavour, 'driver')
-    return run_lines(exe, cases, timeout=timeout, restart_on_crash=False)
+    return run_lines(exe, cases, timeout=timeout, restart_on_crash=False, big_stack=True)
 
 
 FORBIDDEN = re.compile(r'\b(Admitted|admit|Axiom|Axioms|Parameter|Parameters|Conjecture|Admit Obligations|'
